@@ -8,7 +8,9 @@ population is accepted only when the analysis can discharge it:
   (b) a live (release) branch that dominates it already established the same predicate,
   (c) it repeats, on the operands handed over, a belief of a crate function it calls (hoisting a callee's belief),
   (d) it is the negation-free copy of a release-live `assert!` of the same function,
-  (e) it is a comparison that holds for every value its operands can take (interval enclosure from the leaf types and operators).
+  (e) it is a comparison that holds for every value its operands can take (interval enclosure from the leaf types and operators, and
+      from the ranges that dominating release-live comparisons with constants give to immutable leaves),
+  (f) it is a conjunct of a crate predicate whose release-live call dominates it (`assert!(is_valid(x))` establishes `x % MIN == 0`).
 Anything else is reported as an unreviewed debug-only belief.  Removing a belief never alarms."""
 import json, os, re
 from collections import Counter
@@ -74,8 +76,34 @@ def _items(e, closure=False):
     return rec(e)[0]
 
 
+def _orient(e):
+    """a top-level comparison in one orientation (`b >= a` is `a <= b`, `!(a > b)` is `a <= b`; `==`/`!=` operands ordered)"""
+    from .features import _cmp_of
+    c = _cmp_of(e)
+    if c is None:
+        return e
+    op, a, b = c
+    if op in ("Eq", "Ne") and canon(strip(b)) < canon(strip(a)):
+        a, b = b, a
+    return ("bin", op, a, b)
+
+
 def pred_key(prog, e, truth, closure=False):
-    t = validate.closure_canon(prog, _items(e, closure))
+    from .features import expand
+    e = _items(e, closure)
+    try:
+        # a predicate that only forwards to another one (`is_near_gt(a, b)` = `is_near_lt(b, a)`) is that other one
+        if strip(e)[0] == "call" and prog.get(strip(e)[1]) is not None and prog.get(strip(e)[1]).locals[0]["ty"] == "bool":
+            e = expand(prog, e)
+    except Exception:
+        pass
+    if not truth:
+        e2 = _orient(("un", "Not", e))
+        if e2[0] == "bin":
+            e, truth = e2, True
+    else:
+        e = _orient(e)
+    t = validate.closure_canon(prog, e)
     t = re.sub(r"local:\w+", "local", t)
     return ("" if truth else "!") + t
 
@@ -115,13 +143,20 @@ def _block_of(f, sp):
 _W = {"u8": 8, "u16": 16, "u32": 32, "u64": 64, "usize": 64, "bool": 1}
 
 
-def _ival(f, e, depth=0):
+def _ival(f, e, depth=0, facts=None):
     """(lo, hi, bits) enclosing every value an unsigned integer expression can take, from the types of its leaves and the operators
     alone (no path facts); None when not known.  An operation whose enclosure leaves its type is not enclosed (it could wrap)."""
     e = strip(e)
     if depth > 12 or not isinstance(e, tuple) or not e:
         return None
     k = e[0]
+    if facts and k in ("param", "local", "cast", "call", "field", "deref"):
+        fk = canon(e)
+        if fk in facts:
+            base = _ival(f, e, depth, None)
+            lo, hi = facts[fk]
+            if base is not None:
+                return (max(base[0], lo), min(base[1], hi), base[2])
 
     def of_type(ty):
         ty = (ty or "").lstrip("&").replace("mut ", "").strip()
@@ -141,7 +176,7 @@ def _ival(f, e, depth=0):
         return None
     if k == "cast":
         t = of_type(e[2])
-        a = _ival(f, e[1], depth + 1)
+        a = _ival(f, e[1], depth + 1, facts)
         if t is None:
             return None
         if a is not None and a[1] <= t[1]:
@@ -164,11 +199,13 @@ def _ival(f, e, depth=0):
         return None
     if k == "bin":
         op = e[1]
-        a, b = _ival(f, e[2], depth + 1), _ival(f, e[3], depth + 1)
+        a, b = _ival(f, e[2], depth + 1, facts), _ival(f, e[3], depth + 1, facts)
         if op == "BitAnd":
             his = [x[1] for x in (a, b) if x is not None]
             ws = [x[2] for x in (a, b) if x is not None]
             return (0, min(his), max(ws)) if his else None
+        if op == "Rem" and b is not None and b[0] > 0:
+            return (0, b[1] - 1 if a is None else min(a[1], b[1] - 1), b[2] if a is None else max(a[2], b[2]))
         if a is None or b is None:
             return None
         w = max(a[2], b[2])
@@ -199,14 +236,54 @@ def _ival(f, e, depth=0):
     return None
 
 
-def _by_ranges(f, e, truth):
-    """the comparison holds for every value its operands can take (types of the leaves and operators only)"""
+def _leaf_facts(f, sy, blk):
+    """ranges of immutable leaves (parameters, single-assignment locals and casts / calls over them) established by release-live
+    comparisons with constants that dominate block blk"""
+    from .features import _cmp_of
+    from .summary import _belief_edge
+    facts = {}
+    for c in path_conds(f, sy, blk):
+        if len(c) > 3 and _belief_edge(f, c[3][0]):
+            continue
+        a = bool_atom(c)
+        if a is None or a[0] == "truth":
+            continue
+        cc = _cmp_of(("bin", a[0], a[1], a[2]))
+        if cc is None:
+            continue
+        op, x, y = cc
+        for leaf, other, flip in ((x, y, False), (y, x, True)):
+            iv = _ival(f, other)
+            lf = strip(leaf)
+            if iv is None or iv[0] != iv[1] or lf[0] == "const":
+                continue
+            from ..sym import walk
+            if any(z[0] == "local" and len(f.defs.get(z[1], [])) != 1 for z in walk(lf)):
+                continue
+            k = iv[0]
+            lo, hi = facts.get(canon(lf), (0, 1 << 64))
+            # op is Lt/Le/Eq/Ne over (x, y)
+            if op == "Lt":
+                lo, hi = (lo, min(hi, k - 1)) if not flip else (max(lo, k + 1), hi)
+            elif op == "Le":
+                lo, hi = (lo, min(hi, k)) if not flip else (max(lo, k), hi)
+            elif op == "Eq":
+                lo, hi = max(lo, k), min(hi, k)
+            else:
+                continue
+            facts[canon(lf)] = (lo, hi)
+    return facts
+
+
+def _by_ranges(f, e, truth, facts=None):
+    """the comparison holds for every value its operands can take (types of the leaves and operators; plus the ranges that dominating
+    release-live comparisons with constants give to immutable leaves)"""
     from .features import _cmp_of
     c = _cmp_of(e if truth else ("un", "Not", e))
     if c is None:
         return None
     op, a, b = c
-    ia, ib = _ival(f, a), _ival(f, b)
+    ia, ib = _ival(f, a, 0, facts), _ival(f, b, 0, facts)
     if ia is None or ib is None:
         return None
     ok = {"Lt": ia[1] < ib[0], "Le": ia[1] <= ib[0], "Ne": ia[1] < ib[0] or ib[1] < ia[0], "Eq": ia[0] == ia[1] == ib[0] == ib[1]}.get(op, False)
@@ -225,7 +302,7 @@ def _discharge(prog, f, sy, e, truth, sp):
     blk = sw[0]
     want = validate.closure_canon(prog, e)
     try:
-        w = _by_ranges(f, e, truth)
+        w = _by_ranges(f, e, truth, _leaf_facts(f, sy, blk))
     except Exception:
         w = None
     if w:
@@ -250,9 +327,67 @@ def _discharge(prog, f, sy, e, truth, sp):
             if validate.closure_canon(prog, validate.expand_cells(sy, a[1])) == want and a[2] == truth:
                 return "established by a dominating live branch"
         else:
-            t = canon(("bin", a[0], a[1], a[2]))
-            if truth and t == canon(strip(e)):
-                return "established by a dominating live branch"
+            from .features import _cmp_of as _c
+            x = _c(validate.expand_cells(sy, ("bin", a[0], a[1], a[2])))
+            y = _c(e if truth else ("un", "Not", e))
+            if x is not None and y is not None:
+                kx = (x[0],) + tuple(sorted([canon(strip(x[1])), canon(strip(x[2]))]) if x[0] in ("Eq", "Ne") else [canon(strip(x[1])), canon(strip(x[2]))])
+                ky = (y[0],) + tuple(sorted([canon(strip(y[1])), canon(strip(y[2]))]) if y[0] in ("Eq", "Ne") else [canon(strip(y[1])), canon(strip(y[2]))])
+                if kx == ky:
+                    return "established by a dominating live branch"
+    # (f) a dominating release-live call of a crate predicate whose definition contains the belief: `assert!(is_valid(x))` establishes
+    # every conjunct of `is_valid` (each of the predicate's non-false results is reached only under the belief, on the operands handed over)
+    from .features import _cmp_of
+    from .summary import _belief_edge, loop_free
+
+    def norm(x):
+        c = _cmp_of(x)
+        if c is None:
+            return None
+        op, a, b = c
+        a, b = canon(strip(a)), canon(strip(b))
+        if op in ("Eq", "Ne") and b < a:
+            a, b = b, a
+        return "%s(%s,%s)" % (op, re.sub(r"::<[^()\[\]]*>\(", "(", a), re.sub(r"::<[^()\[\]]*>\(", "(", b))
+    mine = norm(e if truth else ("un", "Not", e))
+    if mine is not None:
+        for c in path_conds(f, sy, blk):
+            if len(c) > 3 and _belief_edge(f, c[3][0]):
+                continue
+            a = bool_atom(c)
+            if not (a and a[0] == "truth" and a[2] is True and strip(a[1])[0] == "call"):
+                continue
+            call = strip(a[1])
+            g = prog.get(call[1])
+            if g is None or not loop_free(g) or g.locals[0]["ty"] != "bool":
+                continue
+            gs = Sym(g)
+            pm = {k + 1: x for k, x in enumerate(call[2])}
+            rsites = []
+            for bi, j, st in g.stmts():
+                if st["s"] == "assign" and st["lhs"]["l"] == 0 and not st["lhs"]["p"]:
+                    rsites.append((bi, strip(gs.rvalue(st["rv"]))))
+            for bi, t in g.calls():
+                if t["dest"]["l"] == 0 and not t["dest"]["p"]:
+                    rsites.append((bi, strip(gs.call(t, bi))))
+            nonfalse = [(bi, v) for bi, v in rsites if not (v[0] == "const" and v[1] == 0)]
+            if not nonfalse:
+                continue
+            every = True
+            for bi, v in nonfalse:
+                atoms = set()
+                for c2 in path_conds(g, gs, bi):
+                    a2 = bool_atom(c2)
+                    if a2 and a2[0] != "truth":
+                        atoms.add(norm(validate.subst(("bin", a2[0], a2[1], a2[2]), pm)))
+                n0 = norm(validate.subst(v, pm)) if v[0] == "bin" else None
+                if n0:
+                    atoms.add(n0)
+                if mine not in atoms:
+                    every = False
+                    break
+            if every:
+                return "a conjunct of the dominating release-live test %s(..)" % call[1].split("::")[-1]
     # (d) a release-live assert! of the same function on the same predicate
     for kind, e2, t2, sp2 in validate.guards_of(f, sy):
         if kind == "live" and t2 == truth and validate.closure_canon(prog, e2) == want:
